@@ -266,6 +266,14 @@ class HTMLUnicodeInputStream(object):
             # We have no more data, bye-bye stream
             return False
 
+        # A lone CR or lead surrogate cannot be held back on its own (the
+        # chunk would be empty), so read on until something follows it
+        while len(data) == 1 and (data == "\r" or 0xD800 <= ord(data) <= 0xDBFF):
+            more = self.dataStream.read(chunkSize)
+            if not more:
+                break
+            data += more
+
         if len(data) > 1:
             lastv = ord(data[-1])
             if lastv == 0x0D or 0xD800 <= lastv <= 0xDBFF:
